@@ -278,3 +278,29 @@ example : ∀ p ∈ [0, 0, 1, 1, 2, 0, 2].inits,
     nChecked (runT [{ idx := 0, thr := 2 }] [1, 1, 1] (cfg0 0 3) p).th ≤ 1 := by decide
 
 end Sentinel.C04
+
+namespace Sentinel.C04
+open Sentinel.Iso
+
+/-! ## Non-vacuity: the hypotheses above are satisfiable, on concrete histories of the executed model -/
+
+/-- a history `cap` / `cap_batch_pos` apply to (sequential ops, batches ≥ 1): full, blocked, freed out of order, reused -/
+example :
+    let h : List Op := [.entry 1 "a" 1, .entry 2 "a" 1, .entry 3 "a" 1, .exit 1, .entry 4 "a" 1, .conc "a"]
+    (∀ o ∈ h, seqOp o = true) ∧ (h.all fun o => match o with | .entry _ _ b => decide (1 ≤ b.toNat) | _ => true) = true ∧
+    histSize h < 2147483648 ∧
+    (run { rules := loadRules [("a", 2)] } h).2 = [.pass, .pass, .block 0 2, .none, .pass, .val 2] := by
+  decide
+
+/-- `freed_capacity_reusable`: a live entry exists, and the id used next is free -/
+example : (1, "a") ∈ (run {} [.load [("a", 1)], .entry 1 "a" 1]).1.live ∧
+    isLive (step (run {} [.load [("a", 1)], .entry 1 "a" 1]).1 (.exit 1)).1.live 2 = false := by decide
+
+/-- `rejected_holds_nothing`: a blocked request exists -/
+example : (step (run {} [.load [("a", 1)], .entry 1 "a" 1]).1 (.entry 2 "a" 1)).2 = .block 0 1 := by decide
+
+/-- rules with threshold 0 are dropped by `IsValidRule` (so `load a:0` means "no rule"), several rules keep their load positions -/
+example : loadRules [("a", 0), ("b", 3), ("a", 5), ("a", 2)] =
+    [("b", { idx := 1, thr := 3 }), ("a", { idx := 2, thr := 5 }), ("a", { idx := 3, thr := 2 })] := by decide
+
+end Sentinel.C04
